@@ -301,6 +301,32 @@ func (c *AttrCache) Invalidate(path string) {
 	delete(c.cache, path)
 }
 
+// isAtOrBelow reports whether path is root itself or lies below it
+func isAtOrBelow(path, root string) bool {
+	if path == root || root == "/" {
+		return true
+	}
+	return len(path) > len(root) && path[:len(root)] == root && path[len(root)] == '/'
+}
+
+// InvalidateTree removes the entry for root and every entry below it
+// (positive and negative). Used when a directory is renamed.
+func (c *AttrCache) InvalidateTree(root string) {
+	c.mu.Lock()
+	defer c.mu.Unlock()
+
+	toDelete := make([]string, 0)
+	for path := range c.cache {
+		if isAtOrBelow(path, root) {
+			toDelete = append(toDelete, path)
+		}
+	}
+	for _, path := range toDelete {
+		c.removeFromAccessLog(path)
+		delete(c.cache, path)
+	}
+}
+
 // Clear removes all entries from the cache
 func (c *AttrCache) Clear() {
 	c.mu.Lock()
@@ -617,6 +643,23 @@ func (c *DirCache) Invalidate(path string) {
 
 	c.removeFromAccessList(path)
 	delete(c.entries, path)
+}
+
+// InvalidateTree removes the listing of root and of every directory below it
+func (c *DirCache) InvalidateTree(root string) {
+	c.mu.Lock()
+	defer c.mu.Unlock()
+
+	toDelete := make([]string, 0)
+	for path := range c.entries {
+		if isAtOrBelow(path, root) {
+			toDelete = append(toDelete, path)
+		}
+	}
+	for _, path := range toDelete {
+		c.removeFromAccessList(path)
+		delete(c.entries, path)
+	}
 }
 
 // Clear removes all entries from the cache
